@@ -1156,7 +1156,7 @@ func init() {
 			"Rewind: a third of the texts is read in part (1..n lexemes), then Len() or Check() is called on the same object and the document is drained: both calls succeed and what follows is the complete stream or the exact continuation. " +
 			"Pretty layout: the value laid out one member per line with annotations (rules, notes, multi-line form) and user comments at the line ends where the notation allows them; the schema scanner's events outside the annotations equal the document scanner's. " +
 			"Lockstep: every fourth text, the last two or three texts are read by turns (alternating or random schedule of NextLexeme calls on separate Document objects) and each stream must equal the stream of the same text read alone. " +
-			"Non-trivial = text with at least 3 values; distinct = hash of the text.",
+			"Non-trivial = text with at least 3 values; distinct = hash of the text. Every second enum cross-scan follows a scan of the same text cut after its last comma (pooled scanner state).",
 		Assumptions: []string{
 			"value-begin/value-end and item-begin/item-end spans are only required to enclose their value and to lie inside their slot (between the neighbouring key/values and the parent's brackets); the statement fixes exactly only literal, key and container spans",
 			"opening events must begin at the first byte of their construct and end inside it",
